@@ -126,7 +126,8 @@ Example C19_response_example :
   respond HTTP11 [71; 69; 84] None [83] [68] [50; 48; 48; 32; 79; 75] [([88], [49])] [[97; 98]; []; [99]]
   = Some (HTTP11 ++ [32; 50; 48; 48; 32; 79; 75; 13; 10] ++ [83; 101; 114; 118; 101; 114; 58; 32; 83; 13; 10]
           ++ [68; 97; 116; 101; 58; 32; 68; 13; 10] ++ [88; 58; 32; 49; 13; 10]
-          ++ te_name ++ [58; 32] ++ te_value ++ [13; 10] ++ conn_name ++ [58; 32] ++ conn_value ++ [13; 10; 13; 10]
+          ++ [84; 114; 97; 110; 115; 102; 101; 114; 45; 69; 110; 99; 111; 100; 105; 110; 103; 58; 32; 99; 104; 117; 110; 107; 101; 100; 13; 10]
+          ++ [67; 111; 110; 110; 101; 99; 116; 105; 111; 110; 58; 32; 99; 108; 111; 115; 101; 13; 10; 13; 10]
           ++ [50; 13; 10; 97; 98; 13; 10; 49; 13; 10; 99; 13; 10; 48; 13; 10; 13; 10])
   /\ uses_chunked [72; 84; 84; 80; 47; 49; 46; 48] [71; 69; 84] 200 [] = false
   /\ uses_chunked HTTP11 HEAD 200 [] = false
@@ -168,3 +169,72 @@ Example C19_environ_example :
             en_chunked := false |}.
 Proof. vm_compute. reflexivity. Qed.
 Print Assumptions C19_environ_example.
+
+(* absolute-form target http://h:80/a%20b?q : path and query split after the authority, Host taken
+   from the target (generated path_info_gen / host_override_gen) *)
+Example C19_environ_absolute_example :
+  make_environ [104; 116; 116; 112; 58; 47; 47; 104; 58; 56; 48; 47; 97; 37; 50; 48; 98; 63; 113]
+               [([72; 111; 115; 116], [120])]
+  = Some {| en_path_info := [47; 97; 32; 98]; en_query_string := [113];
+            en_request_uri := [104; 116; 116; 112; 58; 47; 47; 104; 58; 56; 48; 47; 97; 37; 50; 48; 98; 63; 113];
+            en_headers := [(HTTP_HOST, [104; 58; 56; 48])]; en_chunked := false |}.
+Proof. vm_compute. reflexivity. Qed.
+Print Assumptions C19_environ_absolute_example.
+
+(* request headers (the generated body of make_environ's header loop, folded over the headers):
+   every header whose name has no underscore appears under HTTP_<NAME> with the values the client
+   sent under that name, in order, joined by commas (absent when there were none); Content-Type and
+   Content-Length appear unprefixed with the last value sent; names with an underscore are dropped *)
+Theorem C19_environ_headers : forall hs,
+  (forall K, env_get (HTTP_ ++ K) (env_headers hs []) = join_comma (sent_values (HTTP_ ++ K) hs)) /\
+  (forall E, exempt E = true -> env_get E (env_headers hs []) = last_value (sent_values E hs)).
+Proof. exact environ_headers. Qed.
+Print Assumptions C19_environ_headers.
+
+(* X-A: 1 / x-a: 2 / X_A: 3 / Content-Type: t / content-type: u *)
+Example C19_environ_headers_example :
+  let hs := [([88; 45; 65], [49]); ([120; 45; 97], [50]); ([88; 95; 65], [51]);
+             ([67; 111; 110; 116; 101; 110; 116; 45; 84; 121; 112; 101], [116]);
+             ([99; 111; 110; 116; 101; 110; 116; 45; 116; 121; 112; 101], [117])] in
+  sent_values (HTTP_ ++ [88; 95; 65]) hs = [[49]; [50]]
+  /\ env_get (HTTP_ ++ [88; 95; 65]) (env_headers hs []) = Some [49; 44; 50]
+  /\ env_get CONTENT_TYPE (env_headers hs []) = Some [117]
+  /\ env_get (HTTP_ ++ CONTENT_TYPE) (env_headers hs []) = None.
+Proof. vm_compute. repeat split. Qed.
+Print Assumptions C19_environ_headers_example.
+
+(* response head (emission plan generated from run_wsgi.write in source order, formats from the
+   running http.server): optional interim 100 Continue, status line = protocol, decimal code and
+   the reason text, Server and Date, exactly the application's headers in their order,
+   Transfer-Encoding: chunked iff chunked framing is used, Connection: close, blank line *)
+Theorem C19_response_headers : forall proto expect server date code msg headers chunked,
+  response_head proto expect server date code msg headers chunked
+  = response_head_spec proto expect server date code msg headers chunked.
+Proof. exact response_head_eq. Qed.
+Print Assumptions C19_response_headers.
+
+(* C19 x C09.  With max_content_length set, the request wrappers read the de-chunking stream through
+   LimitedStream(DechunkedInput(rfile), max_content_length, is_max=True) (C19/Limited.v, built from
+   the regenerated C09/Gen.v).  Malformed framing still surfaces as an error there: on an incomplete
+   framing no read returns an empty result (the end-of-stream signal), what is delivered is cut from
+   the front of the genuine chunk data, every error is ClientDisconnected or RequestEntityTooLarge,
+   and an unbounded read() (Request.get_data) always ends in one of them *)
+From Wz Require Import C19.Limited C19.LimitedProofs.
+Theorem C19_limited_malformed : forall w mx ops, Cof (ref w) = false -> Forall pos_op ops ->
+  match lim_run (lim_init mx) (dst_init w) ops with
+  | (outs, e) =>
+    Forall (fun d => d <> []) outs /\
+    (exists rest, Dof (ref w) = concat outs ++ rest) /\
+    match e with Some e => allowed e | None => ~ In LReadAll ops end
+  end.
+Proof. exact limited_malformed. Qed.
+Print Assumptions C19_limited_malformed.
+
+(* 5 CRLF ab, maximum 100: read(2) delivers ab, read() raises ClientDisconnected; g CRLF: at once *)
+Example C19_limited_malformed_example :
+  lim_run (lim_init 100) (dst_init [53; 13; 10; 97; 98]) [LRead 2; LReadAll] = ([[97; 98]], Some ClientDisconnected)
+  /\ lim_run (lim_init 100) (dst_init [103; 13; 10]) [LReadAll] = ([], Some ClientDisconnected)
+  /\ lim_run (lim_init 100) (dst_init [50; 13; 10; 97; 98; 13; 10; 48; 13; 10; 13; 10]) [LReadAll; LRead 1]
+     = ([[97; 98]; []], None).
+Proof. vm_compute. repeat split. Qed.
+Print Assumptions C19_limited_malformed_example.
